@@ -194,13 +194,17 @@ class Evaluator:
     def call_pure(self, fd, args, kw):
         """a module-level function whose body is `[docstring]; return <expression>`: the expression over its parameters"""
         body = [s for s in fd.body if not (isinstance(s, ast.Expr) and isinstance(s.value, ast.Constant))]
-        if len(body) != 1 or not isinstance(body[0], ast.Return) or body[0].value is None or fd.decorator_list:
+        if fd.decorator_list:
             raise NotConstant('call of ' + fd.name)
+        simple = len(body) == 1 and isinstance(body[0], ast.Return) and body[0].value is not None
         a = fd.args
         if a.kwonlyargs or a.kwarg or a.posonlyargs:
             raise NotConstant('signature of ' + fd.name)
         names = [p.arg for p in a.args]
         env = {}
+        import copy as _copy
+        args = [_copy.deepcopy(x) for x in args]       # the callee may fill containers it was given: never the model's own objects
+        kw = {k: _copy.deepcopy(v) for k, v in kw.items()}
         if len(args) > len(names) and a.vararg is None:
             raise NotConstant('arity of ' + fd.name)
         for n, v in zip(names, args):
@@ -221,9 +225,61 @@ class Evaluator:
         if self.depth > 8:
             raise NotConstant('recursion')
         try:
-            return self.ev(body[0].value, env)
+            if simple:
+                return self.ev(body[0].value, env)
+            # a table builder: local assignments, loops over constants, stores into local containers, one result
+            self.steps = 0
+            r = self.run_block(body, env)
+            if r is None:
+                raise NotConstant('no return value in ' + fd.name)
+            return r[0]
         finally:
             self.depth -= 1
+
+    def run_block(self, stmts, env):
+        """straight-line / looping code over constants with local effects only; -> (value,) at a return, else None"""
+        for st in stmts:
+            self.steps = getattr(self, 'steps', 0) + 1
+            if self.steps > 20000:
+                raise NotConstant('too many steps')
+            if isinstance(st, ast.Expr) and isinstance(st.value, ast.Constant):
+                continue
+            if isinstance(st, ast.Return):
+                return (self.ev(st.value, env) if st.value is not None else None,)
+            if isinstance(st, (ast.Assign, ast.AnnAssign)):
+                if isinstance(st, ast.AnnAssign) and st.value is None:
+                    continue
+                v = self.ev(st.value, env)
+                for t in (st.targets if isinstance(st, ast.Assign) else [st.target]):
+                    if isinstance(t, ast.Subscript) and isinstance(t.value, ast.Name) and t.value.id in env and isinstance(env[t.value.id], (dict, list)):
+                        env[t.value.id][self.ev(t.slice, env)] = v       # a local container (created in this call)
+                    else:
+                        self._bind(t, v, env)
+                continue
+            if isinstance(st, ast.AugAssign) and isinstance(st.target, ast.Name) and st.target.id in env:
+                env[st.target.id] = self.ev(ast.BinOp(left=st.target, op=st.op, right=st.value), env)
+                continue
+            if isinstance(st, ast.For) and not st.orelse:
+                for item in list(self.ev(st.iter, env)):
+                    self._bind(st.target, item, env)
+                    r = self.run_block(st.body, env)
+                    if r is not None:
+                        return r
+                continue
+            if isinstance(st, ast.If):
+                r = self.run_block(st.body if self.ev(st.test, env) else st.orelse, env)
+                if r is not None:
+                    return r
+                continue
+            if isinstance(st, ast.Expr) and isinstance(st.value, ast.Call) and isinstance(st.value.func, ast.Attribute) \
+                    and isinstance(st.value.func.value, ast.Name) and st.value.func.value.id in env \
+                    and isinstance(env[st.value.func.value.id], (list, dict)) and st.value.func.attr in ('append', 'extend', 'update', 'setdefault', 'insert'):
+                getattr(env[st.value.func.value.id], st.value.func.attr)(*[self.ev(a, env) for a in st.value.args])
+                continue
+            if isinstance(st, ast.Pass):
+                continue
+            raise NotConstant('statement ' + type(st).__name__)
+        return None
 
     # comprehensions
     def _gen(self, gens, env, emit):
